@@ -23,20 +23,24 @@ def _run_all():
     with facts.Lock("witness"):
         if os.path.exists(out):
             return json.load(open(out))
-        shutil.copyfile(os.path.join(facts.REPO, "Cargo.lock"), os.path.join(WIT, "Cargo.lock"))
+        # a scratch copy of the harness crate whose path dependency points at the repository under analysis
+        import hashlib
+        wdir = os.path.join(facts.CACHE, "witness-" + hashlib.sha256(facts.REPO.encode()).hexdigest()[:8])
+        shutil.rmtree(wdir, ignore_errors=True)
+        shutil.copytree(WIT, wdir, ignore=shutil.ignore_patterns("target", "Cargo.lock"))
+        toml = open(os.path.join(WIT, "Cargo.toml")).read().replace("/repo/crates/guest-rust",
+                                                                      os.path.join(facts.REPO, "crates/guest-rust"))
+        open(os.path.join(wdir, "Cargo.toml"), "w").write(toml)
+        shutil.copyfile(os.path.join(facts.REPO, "Cargo.lock"), os.path.join(wdir, "Cargo.lock"))
         env = facts._env()
         env["CARGO_TARGET_DIR"] = os.path.join(facts.CACHE, "witness-target")
         lockp = os.path.join(facts.REPO, "Cargo.lock")
         snap = open(lockp, "rb").read()
         try:
-            r = subprocess.run(["cargo", "+nightly", "test", "--doc", "--offline"], cwd=WIT, env=env,
+            r = subprocess.run(["cargo", "+nightly", "test", "--doc", "--offline"], cwd=wdir, env=env,
                                capture_output=True, text=True)
         finally:
             facts._restore_lock(snap)
-            try:
-                os.remove(os.path.join(WIT, "Cargo.lock"))
-            except OSError:
-                pass
         res = {}
         for m in re.finditer(r"^test src/lib\.rs - (\w+) \(line \d+\)( - compile fail)? \.\.\. (\w+)", r.stdout, re.M):
             res[m.group(1)] = {"compile_fail": bool(m.group(2)), "status": m.group(3)}
